@@ -51,6 +51,13 @@ func (d def) event() event.IEvent {
 
 // nonMatching events: wrong ref, right ref wrong kind, message with/without op mismatch.
 func nonMatching(defs []def, variant int) event.IEvent {
+	if variant%5 == 4 {
+		// a signal whose reference shares only the local part with definition 0's
+		if i := strings.Index(defs[0].Ref, ":"); i >= 0 {
+			return drive.Signal("zz" + defs[0].Ref[i:])
+		}
+		return drive.Signal("zz_" + defs[0].Ref)
+	}
 	switch variant % 4 {
 	case 0:
 		return drive.Signal("zz_none")
@@ -214,6 +221,18 @@ func check(t tb, d descriptor) (violation string, nontrivial bool) {
 func fail(t tb, test string, d descriptor, v string) {
 	msg := rec.Fail(rec.Failure{Property: prop, Test: test, Symptom: "accounting", Detail: v, Descriptor: d})
 	t.Fatalf("%s", msg)
+}
+
+// qualified rewrites the references as prefixed QNames that share their local
+// part (ns0:ready, ns1:ready, ...), all of them signals: different references
+// all the same.
+func qualified(defs []def) []def {
+	out := make([]def, len(defs))
+	for i, d := range defs {
+		_ = d
+		out[i] = def{Kind: "signal", Ref: fmt.Sprintf("ns%d:ready", i)}
+	}
+	return out
 }
 
 func kindsFor(n int, variant int) []def {
